@@ -233,6 +233,8 @@ def rule_r10(chk, rid="C08-R10"):
     class _Tok(fin.FinObj):
         def __init__(self, qid, shift):
             super().__init__(qid=qid, shift=shift)
+        def shifted(self, by):
+            return _Tok(self.qid, self.shift + by)
         def __eq__(self, o):
             return isinstance(o, _Tok) and (self.qid, self.shift) == (o.qid, o.shift)
         def __hash__(self):
